@@ -63,6 +63,7 @@ class C09(IRCheck):
         for i, t, root in random_tables(rng, n // 60, [1, 2], widths=(1, 8, 64, 255), p_const=0.7):
             envs = make_envs(rng, t.regs(), t.mems(), 2, regw=255)
             gs.append([case("x%d" % i, "fold", t, root, envs)])
+        gs += adapter_lookalikes(rng, "fold", False)
         # all-constant trees (must fold to one constant)
         for i, t, root in random_tables(rng, n // 4, [1, 2, 3, 4], p_const=1.0, p_mem=0.0):
             gs.append([case("k%d" % i, "fold", t, root, make_envs(rng, t.regs(), t.mems(), 1))])
@@ -328,6 +329,44 @@ class WGGen(ExprGen):
         return e
 
 
+def adapter_lookalikes(rng, op, with_setwidth):
+    """additions that only LOOK like a width adapter: x + C with a non-zero C whose low byte(s) - up to the whole low
+    machine word - are zero, in every operand order, width relation and context in which adapters are pruned"""
+    gs, k = [], 0
+    for wx in (1, 2, 4, 8, 16):
+        for wc in (1, 2, 4, 8, 16):
+            for cval in (0x100, 0x1000, 0x8000, 0x10000, 0xFF00, 0x100000000, 0, 1 << 64, 1 << 72, ((1 << 128) - 1) ^ ((1 << 64) - 1)):
+                if cval >= 1 << (8 * wc) or (cval == 0 and wc != 1) or (cval >= 1 << 64 and wx < 8):
+                    continue
+                for wadd in (1, 2, 4, 8, 16):
+                    if wadd == 16 and cval < 1 << 32 and wx != 16:
+                        continue
+                    t = Table()
+                    x = t.reg("r1", wx) if (wx + wc + wadd) % 3 else t.bin(5, t.reg("r1", wx), t.reg("r2", wx), wx)
+                    c = t.constn(cval, wc)
+                    for first in (False, True):
+                        a = t.bin(1, c, x, wadd) if first else t.bin(1, x, c, wadd)
+                        for ctx in ("top", "mem", "bin", "less", "nest", "shift"):
+                            if ctx == "top":
+                                root = a
+                            elif ctx == "mem":
+                                root = t.mem("m1", a, 2)
+                            elif ctx == "bin":
+                                root = t.bin(rng.choice(OPS), a, t.reg("r2", wadd), wadd)
+                            elif ctx == "less":
+                                root = t.less(a, t.reg("r2", wadd), t.const([1]), a, wadd)
+                            elif ctx == "shift":
+                                root = t.bin(1, t.bin(3, a, t.constn(8 * min(wadd, 8), 1), wadd), t.constn(1, 1), min(wadd, 8))
+                            else:
+                                root = t.wg(t.bin(4, a, t.constn(3, 1), wadd), rng.choice([1, 2, 8]))
+                            envs = make_envs(rng, t.regs(), t.mems(), 4, regw=40)
+                            gs.append([case("z%d" % k, op, t, root, envs)])
+                            if with_setwidth and ctx in ("top", "bin"):
+                                gs.append([case("y%d" % k, "setwidth", t, root, envs, w=rng.choice([1, 2, 4, 8, 16]))])
+                            k += 1
+    return gs
+
+
 class C12(IRCheck):
     pid = "C12"
     level_text, level_note = IR_LEVEL, IR_NOTE
@@ -405,35 +444,7 @@ class C12(IRCheck):
                         envs = make_envs(rng, t.regs(), t.mems(), 5)
                         gs.append([case("v%d" % k, "purge", t, root, envs)])
                         k += 1
-        # additions that only LOOK like a width adapter: x + C with a non-zero C whose low byte(s) are zero, in every
-        # operand order, width relation and context in which adapters are pruned
-        for wx in (1, 2, 4, 8):
-            for wc in (1, 2, 4, 8):
-                for cval in (0x100, 0x1000, 0x8000, 0x10000, 0xFF00, 0x100000000, 0):
-                    if cval >= 1 << (8 * wc) or (cval == 0 and wc != 1):
-                        continue
-                    for wadd in (1, 2, 4, 8):
-                        t = Table()
-                        x = t.reg("r1", wx) if (wx + wc + wadd) % 3 else t.bin(5, t.reg("r1", wx), t.reg("r2", wx), wx)
-                        c = t.constn(cval, wc)
-                        for first in (False, True):
-                            a = t.bin(1, c, x, wadd) if first else t.bin(1, x, c, wadd)
-                            for ctx in ("top", "mem", "bin", "less", "nest"):
-                                if ctx == "top":
-                                    root = a
-                                elif ctx == "mem":
-                                    root = t.mem("m1", a, 2)
-                                elif ctx == "bin":
-                                    root = t.bin(rng.choice(OPS), a, t.reg("r2", wadd), wadd)
-                                elif ctx == "less":
-                                    root = t.less(a, t.reg("r2", wadd), t.const([1]), a, wadd)
-                                else:
-                                    root = t.wg(t.bin(4, a, t.constn(3, 1), wadd), rng.choice([1, 2, 8]))
-                                envs = make_envs(rng, t.regs(), t.mems(), 5)
-                                gs.append([case("z%d" % k, "purge", t, root, envs)])
-                                if ctx in ("top", "bin"):
-                                    gs.append([case("y%d" % k, "setwidth", t, root, envs, w=rng.choice([1, 2, 4, 8, 16]))])
-                                k += 1
+        gs += adapter_lookalikes(rng, "purge", True)
         return gs
 
 
@@ -552,7 +563,7 @@ class C28(Check):
         c = group[0]
         if len(c["nodes"]) < 3:
             return None
-        return repr((c["op"], c["nodes"], c.get("a"), c.get("b"), c.get("kind"), c.get("eff")))
+        return repr((c["op"], c["nodes"], c.get("a"), c.get("b"), c.get("kind"), c.get("eff"), c.get("effs")))
 
     def groups(self, tier, seed):
         rng = random.Random(seed * 217645199 + 28)
@@ -588,7 +599,16 @@ class C28(Check):
                 eff = {"e": "mem", "n": rng.choice(["m1", "m2"]), "w": rng.choice([1, 2, 4, 8]), "v": a, "a": b}
             add({"op": "exprs", "nodes": t.nodes, "eff": eff})
             add({"op": "effapply", "nodes": t.nodes, "eff": eff})
+            # the operands of several effects at once: a long list, then shorter ones (results are kept by the harness and
+            # re-read after every later call of the same process)
+            eff2 = {"e": "reg", "n": "x3", "w": 4, "v": b, "a": 0}
+            eff3 = {"e": "mem", "n": "m1", "w": 2, "v": b, "a": a}
+            for effs in ([eff, eff2, eff3], [eff2], [eff3, eff], []):
+                add({"op": "exprsmany", "nodes": t.nodes, "effs": effs})
         return gs
+
+    def stateful(self):
+        return True             # verdicts about results kept from earlier calls are reproduced with their process history
 
 
 class C27(Check):
